@@ -287,58 +287,95 @@ func propC16(r *Run) {
 			}
 			w.confinement()
 			r.Sample(map[string]any{"entries": ents, "tmp": tmpKind, "readable": readable, "rule": fmt.Sprint(want), "check": fmt.Sprint(got)})
-		case 2: // histories from a valid store keep it valid
+		case 2: // histories from a valid store keep it valid, with and without single injected faults
 			users := w.populate(1 + r.Choose("nusers", 4))
 			w.arm()
 			n := 5 + r.Choose("nops", 25)
 			var hist []string
+			tainted := false // after a faulty call the password model is no longer exact: structural invariants only
+			onDisk := func(u string) (exists, admin bool) {
+				if _, ok := w.fs.Get(w.base() + "/" + u + ".admin"); ok {
+					return true, true
+				}
+				_, ok := w.fs.Get(w.base() + "/" + u + ".user")
+				return ok, false
+			}
 			for i := 0; i < n; i++ {
 				u := append(users, "newbie", "zed")[r.Choose("user", len(users)+2)]
 				op := r.Choose("op", 5)
 				admins := 0
-				for _, m := range w.model {
-					if m.Admin && m.Supported {
+				for _, nm := range w.fs.Names(w.base()) {
+					if strings.HasSuffix(nm, ".admin") {
 						admins++
 					}
 				}
-				m := w.model[u]
-				lastAdmin := m != nil && m.Admin && admins == 1
+				ex, adm := onDisk(u)
+				lastAdmin := ex && adm && admins == 1
+				faulty := r.Choose("inject-fault", 4) == 0
+				if faulty {
+					tainted = true
+					k := w.fs.NOps + r.Choose("fault-at", 24)
+					pick := r.Choose("fault-errno", 4)
+					w.fs.Plan = func(seq int, kind, real string) *simfs.Fault {
+						if seq == k {
+							if kind == "open" && !strings.HasSuffix(real, ".user") && !strings.HasSuffix(real, ".admin") && strings.Contains(real, "/.tmp/") {
+								kind = "create"
+							}
+							if e := errnosFor[kind]; len(e) > 0 {
+								return &simfs.Fault{Errno: e[pick%len(e)]}
+							}
+						}
+						return nil
+					}
+					r.Count("fault:single-io-error-in-history")
+				}
 				var err error
+				opname := ""
 				switch op {
 				case 0:
 					adm := r.Choose("admin", 2) == 1
 					pw := GenPassword(r)
+					opname = "add"
 					w.guard("add", func() { err = d.AddUser(u, pw, adm) })
-					if w.mAdd(u, pw, adm, 0) != (err == nil) {
+					if !tainted && w.mAdd(u, pw, adm, 0) != (err == nil) {
 						r.FailOther("C01", "result/add", "add(%s) err=%v", u, err)
 					}
 				case 1:
 					pw := GenPassword(r)
+					opname = "update"
 					w.guard("update", func() { err = d.UpdateUser(u, pw) })
-					if w.mUpdate(u, pw, 0) != (err == nil) {
+					if !tainted && w.mUpdate(u, pw, 0) != (err == nil) {
 						r.FailOther("C01", "result/update", "update(%s) err=%v", u, err)
 					}
 				case 2:
 					adm := r.Choose("admin", 2) == 1
 					if lastAdmin && !adm {
+						w.fs.Plan = nil
 						continue // the property excludes demoting the last administrator
 					}
+					opname = "set-admin"
 					w.guard("set-admin", func() { err = d.SetAdmin(u, adm) })
-					if m != nil && err == nil {
+					if m := w.model[u]; m != nil && err == nil {
 						m.Admin = adm
 					}
 				case 3:
 					if lastAdmin {
+						w.fs.Plan = nil
 						continue
 					}
+					opname = "remove"
 					w.guard("remove", func() { d.RemoveUser(u) })
 					delete(w.model, u)
 				case 4:
-					if m != nil {
+					opname = "authenticate"
+					if m := w.model[u]; m != nil && !tainted {
 						w.checkAuth("C16", 0, u, m.PW)
+					} else {
+						w.guard("authenticate", func() { d.Authenticate(u, "x") }) //nolint
 					}
 				}
-				hist = append(hist, fmt.Sprintf("%d:%s", op, u))
+				w.fs.Plan = nil
+				hist = append(hist, fmt.Sprintf("%s(%s)fault=%v:%v", opname, u, faulty, err == nil))
 				var cerr error
 				w.guard("check", func() { cerr = d.Check() })
 				if cerr != nil {
@@ -352,6 +389,9 @@ func propC16(r *Run) {
 						if _, ok := w.fs.Get(w.base() + "/" + strings.TrimSuffix(nm, ".user") + ".admin"); ok {
 							r.Fail("history/two-files", "two files for %s after %v", nm, hist)
 						}
+					}
+					if nm != ".tmp" && !strings.HasSuffix(nm, ".user") && !strings.HasSuffix(nm, ".admin") {
+						r.Fail("history/foreign-entry", "entry %s appeared after %v", nm, hist)
 					}
 				}
 				w.confinement()
